@@ -308,26 +308,83 @@ func gpgSetup(dir string) {
 	}
 }
 
-// gpgVerify: "1" verified, "0" rejected, "-" gpg not available
-func gpgVerify(sig, data []byte) string {
-	if gpgHome == "" {
-		return "-"
-	}
+// gpgVerify: "1" verified, "0" rejected, "-" gpg not available. A bad signature is rejected every time and in every
+// keyring; a transient failure of the gpg process or of its home directory is not: a rejection is confirmed in a
+// freshly made home directory before it is reported.
+var gpgLastOutput string
+
+func gpgVerifyIn(home string, sig, data []byte) bool {
 	dir, err := os.MkdirTemp("", "verif-gpg-")
 	must(err)
 	defer os.RemoveAll(dir)
 	sp := filepath.Join(dir, "sig")
 	must(os.WriteFile(sp, sig, 0o600))
-	args := []string{"--batch", "--quiet", "--homedir", gpgHome, "--trust-model", "always", "--verify", sp}
+	args := []string{"--batch", "--quiet", "--homedir", home, "--trust-model", "always", "--verify", sp}
 	if data != nil {
 		dp := filepath.Join(dir, "data")
 		must(os.WriteFile(dp, data, 0o600))
 		args = append(args, dp)
 	}
-	if exec.Command("gpg", args...).Run() == nil {
+	for attempt := 0; attempt < 3; attempt++ {
+		out, err := exec.Command("gpg", args...).CombinedOutput()
+		if err == nil {
+			return true
+		}
+		gpgLastOutput = string(out)
+	}
+	return false
+}
+
+func gpgVerify(sig, data []byte) string {
+	if gpgHome == "" {
+		return "-"
+	}
+	if gpgVerifyIn(gpgHome, sig, data) {
 		return "1"
 	}
+	fresh, err := os.MkdirTemp("", "verif-gpghome-")
+	must(err)
+	defer os.RemoveAll(fresh)
+	os.Chmod(fresh, 0o700)
+	exec.Command("gpg", "--batch", "--quiet", "--homedir", fresh, "--import", testdata("pubkey.asc")).Run()
+	other := filepath.Join(fresh, "other.pub.asc")
+	os.WriteFile(other, otherPublicArmored(), 0o644)
+	exec.Command("gpg", "--batch", "--quiet", "--homedir", fresh, "--import", other).Run()
+	if gpgVerifyIn(fresh, sig, data) {
+		return "1"
+	}
+	if dump := os.Getenv("VERIF_DUMP"); dump != "" {
+		os.WriteFile(filepath.Join(dump, "gpg-sig"), sig, 0o644)
+		os.WriteFile(filepath.Join(dump, "gpg-out"), []byte(gpgLastOutput), 0o644)
+	}
 	return "0"
+}
+
+// rearmorClearsigned rewrites the signature block of a cleartext-signed message with the optional CRC-24 line that
+// go-crypto's clearsign omits; the signed text and the signature packets stay as they are
+func rearmorClearsigned(msg []byte) []byte {
+	blk, _ := clearsign.Decode(msg)
+	if blk == nil {
+		return nil
+	}
+	i := bytes.Index(msg, []byte("-----BEGIN PGP SIGNATURE-----"))
+	if i < 0 {
+		return nil
+	}
+	packets, err := io.ReadAll(blk.ArmoredSignature.Body)
+	if err != nil {
+		return nil
+	}
+	var buf bytes.Buffer
+	buf.Write(msg[:i])
+	aw, err := armor.Encode(&buf, "PGP SIGNATURE", nil)
+	if err != nil {
+		return nil
+	}
+	aw.Write(packets)
+	aw.Close()
+	buf.WriteString("\n")
+	return buf.Bytes()
 }
 
 func pubRing() openpgp.EntityList {
@@ -338,6 +395,8 @@ func pubRing() openpgp.EntityList {
 	must(err)
 	return el
 }
+
+var unsignedOK = map[string]bool{}
 
 type c10Stats struct {
 	cases, verified, callbacks, failures int
@@ -353,6 +412,16 @@ func runC10Case(w *caseWriter, id string, d sigDesc, variants map[string]sigVari
 	v, ok := variants[d.Variant]
 	w.line("scase %s %s %s", id, xs(d.Format), xs(d.Variant))
 	if !ok {
+		w.line("send")
+		return
+	}
+	// outside the premise: a configuration the format rejects even without signing (platform, package name)
+	bk := hexsum(sha256b, []byte(d.YAML)) + "|" + d.Format
+	if _, seen := unsignedOK[bk]; !seen {
+		unsignedOK[bk] = packageInto(d.YAML, d.Format, io.Discard, nil) == nil
+	}
+	if !unsignedOK[bk] {
+		w.line("sskip unsigned-build-fails")
 		w.line("send")
 		return
 	}
@@ -406,7 +475,14 @@ func runC10Case(w *caseWriter, id string, d sigDesc, variants map[string]sigVari
 					_, e := openpgp.CheckDetachedSignature(ring, bytes.NewReader(blk.Bytes), blk.ArmoredSignature.Body, nil)
 					gok = e == nil
 				}
-				w.line("sverify %s %d %s", xs(n), b2i(gok), gpgVerify(sig, nil))
+				gv := gpgVerify(sig, nil)
+				if gv == "0" && gok {
+					// gpg 2.2 cannot find the end of an armor block that has neither "=" padding nor a CRC line
+					if re := rearmorClearsigned(sig); re != nil && gpgVerify(re, nil) == "1" {
+						gv = "A"
+					}
+				}
+				w.line("sverify %s %d %s", xs(n), b2i(gok), gv)
 				// the manifest against the members as stored
 				for _, m := range o.Members[:min(3, len(o.Members))] {
 					line := fmt.Sprintf("\t%x %x %d %s", md5.Sum(m.Data), sha1.Sum(m.Data), len(m.Data), m.Name)
@@ -534,6 +610,7 @@ func cmdC10(tier string, seed int64, out, statsOut, replay string) {
 		gen := g.config(i)
 		c := &gen.cfg
 		c.Deb.Signature.KeyFile, c.RPM.Signature.KeyFile, c.APK.Signature.KeyFile = "", "", ""
+		c.Platform = "" // every format must be able to package the configuration unsigned
 		if i%2 == 1 {
 			c.Deb.Compression = []string{"xz", "zstd", "none"}[(i/2)%3]
 		}
